@@ -100,15 +100,18 @@ func UnTarIndex(ctx context.Context, fs FilesystemWriter, index Index, s Store, 
 	// Feeder - requesting chunks from the workers and handing a result data channel
 	// to the assembler
 	g.Go(func() error {
+		var interrupted bool
 	loop:
 		for _, c := range index.Chunks {
 			data := make(chan []byte, 1)
 			select {
 			case <-ctx.Done():
+				interrupted = true
 				break loop
 			case req <- requestJob{chunk: c, data: data}: // request the chunk
 				select {
 				case <-ctx.Done():
+					interrupted = true
 					break loop
 				case assemble <- data: // and hand over the data channel to the assembler
 				}
@@ -116,6 +119,10 @@ func UnTarIndex(ctx context.Context, fs FilesystemWriter, index Index, s Store, 
 		}
 		close(req)      // tell the workers this is it
 		close(assemble) // tell the assembler we're done
+		if interrupted {
+			// not all chunks were requested
+			return Interrupted{}
+		}
 		return nil
 	})
 
@@ -135,7 +142,8 @@ func UnTarIndex(ctx context.Context, fs FilesystemWriter, index Index, s Store, 
 					return err
 				}
 			case <-ctx.Done():
-				break loop
+				// Not all chunks were passed on, the archive is incomplete
+				return Interrupted{}
 			}
 		}
 		return nil
